@@ -166,7 +166,9 @@ def r1_placement(a, tier):
 
 def _model_next_token(a, fn, s: str) -> int:
     """Interpret next_token on a model cursor over the abstract string s in {W,E,C}* followed by a non-skippable X."""
-    me = Obj(pos=0)
+    # the class's other plain methods come along (a loop body moved to a private method is interpreted too); the three eaters are the model
+    from ..minieval import mro_methods
+    me = Obj(mro_methods(a, fn.cls.qualname, skip=('eat_whitespace', 'eat_eol_comments', 'eat_comments', 'next_token')) if fn.cls else None, pos=0)
 
     def eat(kind):
         p0 = me.pos
